@@ -222,7 +222,8 @@ def wl_passive(ctx, pq, rng, shots):
         gates.append(G.gate(rng, name, d))
     if not any(g["t"] == "Interferometer" and len(g["m"]) == d for g in gates):
         gates.append({"t": "Interferometer", "m": G.ordered_subset(rng, d, d), "p": {"matrix": M.enc(M.haar_unitary(rng, d))}})
-    variant = str(rng.choice(["ideal", "ideal-subset", "uniform-loss", "loss", "lossy-interferometer", "postselect", "distinguishable", "dask"]))
+    variant = str(rng.choice(["ideal", "ideal-subset", "uniform-loss", "loss", "lossy-interferometer", "postselect", "distinguishable", "dask"],
+                             p=[0.1, 0.12, 0.12, 0.12, 0.1, 0.12, 0.24, 0.08]))
     ins = [{"t": "NumberState", "m": None, "p": {"occupation_numbers": occ}}] + gates
     cfg = {}
     modes = None
@@ -342,8 +343,9 @@ def wl_gaussian_discrete(ctx, pq, rng, shots):
     doc = {"sim": "gaussian", "d": d, "config": cfg, "ins": ins + [{"t": mt, "m": modes, "p": {}}], "shots": shots}
     cls = "gaussian|%s|d%d|k%d|h%s|%s" % (kind, d, k, hbar, G.mode_pattern(modes))
     prefix = "gaussian-" + kind
-    if kind == "pnm" and hbar != 2.0:
-        # known defect: the particle-number sampler normalises mean/covariance as if hbar were 2
+    if kind in ("pnm", "threshold") and hbar != 2.0:
+        # known defect: the particle-number sampler (also used for threshold detection without the
+        # torontonian) normalises mean/covariance as if hbar were 2
         prefix = "gaussian-particle-number-sampling-hbar-normalisation"
     judge_discrete(ctx, pq, doc, law, "gaussian/" + kind, cls, shots if kind != "pnm" else min(shots, 1500), int(rng.integers(1, 2 ** 31)), k, prefix)
 
@@ -424,7 +426,8 @@ def wl_gaussian_dyne(ctx, pq, rng, shots):
         ctx.c["min_p_value"] = min(ctx.c["min_p_value"], p)
     bad = [j for j in range(arity) if abs(ratios[j] - 1.0) > 7 * np.sqrt(2.0 / (len(samples) - 1))]
     if bad:
-        if all(1.85 <= r <= 2.15 for r in ratios):
+        se = np.sqrt(2.0 / (len(samples) - 1))
+        if all(abs(r / 2.0 - 1.0) <= 7 * se for r in ratios):  # statistically consistent with exactly twice the variance
             mech = "gaussian-generaldyne-covariance-x2"
         else:
             mech = "gaussian-%s-variance" % kind
